@@ -1658,7 +1658,7 @@ def blend_check(prop: str, tier: str, seed: int) -> int:
     v = Verdict(prop, tier, seed, "proof")
     ob = vplib.check_obligations(prop)
     # the blend code translated from the working tree (tools/rs2coq.py) and the proofs that tie it to the model
-    vplib.merge_obligations(ob, vplib.gen_blend_obligations())
+    vplib.merge_obligations(ob, vplib.gen_blend_obligations(prop))
     vplib.build_harness(["relchk", "dev"])
     w = Work(prop)
     try:
